@@ -15,7 +15,10 @@ H1f calls without protocol meaning inside the progress methods (print, format, w
 H2  fault points: every API function that creates a progress object, straight-line program with a
     symbolic fault index over all call expressions (loops unrolled twice), exception edges of
     `with` / `try`; composed with the timer model (timers do not fire in H2: interleavings are H1's).
-Assertion (both): in every state after the caller has left the library call and no callback is
+H3  executors: every function that constructs a concurrent.futures executor + its call chain up to the
+    outermost caller, one inlined program with a symbolic fault index; every executor constructed during
+    the API call must be shut down when the call returns or raises.
+Assertion (H1/H1f/H2): in every state after the caller has left the library call and no callback is
 RUNNING, no timer is WAITING.
 Every model is replayed on the real code with real threads (vf/thx_replay.py) and reported only if
 threading.enumerate() shows the surviving timer.
@@ -49,7 +52,10 @@ ASSUMPTIONS = [
     "H2: each loop of an API function runs at most twice; the injected failure is an Exception subclass raised by a "
     "call expression (or assert/raise statement) of the API function; `except Exception`/bare handlers catch it, "
     "handlers for specific classes do not; timers do not fire during H2 (interleavings are covered by H1)",
-    "outside the claim: threads created by numpy/BLAS or by executors (PT-TEBD parallel modes)",
+    "H3: concurrent.futures executors by their documented contract (no thread at construction; map/submit start workers that live "
+    "until shutdown() / the end of the with block); call chain resolved by class for self-calls and by package-unique method name "
+    "otherwise; loops of the API function unrolled once (quick) / twice (thorough), loops of callees once",
+    "outside the claim: threads created by numpy/BLAS; worker processes of the 'multiprocess' mode are modelled, not replayed",
 ]
 STUBS = ["threading.Timer -> contract model (replay: real Timer subclass with a fake clock)",
          "output formatting -> no-op"]
@@ -662,6 +668,170 @@ def run_h2(job):
 
 
 # ---------------------------------------------------------------------------------------
+# H3: concurrent.futures executors must be shut down when the API call is left
+# ---------------------------------------------------------------------------------------
+def discover_exec():
+    import oqupy
+    return thx.discover_executor_chains(oqupy)
+
+
+def h3_case_id(ch):
+    return "H3/%s/%s" % (api_short(ch["top"]), api_short(ch["site"]))
+
+
+def run_h3(job):
+    import oqupy
+    import oqupy.util as util
+    from vf import thx_replay
+    res = _new_result(job["id"], {})
+    t0 = time.time()
+    try:
+        ch = [c for c in discover_exec() if h3_case_id(c) == job["id"].replace("/unroll2", "")][0]
+        chain = ch["chain"]
+        cache, pathcls, mirs = {}, {"self": ch["top_cls"]}, {}
+
+        def resolver(key):
+            path, name = key.split("|")
+            if key not in cache:
+                f, cls, q = chain[name]
+                pathcls[path] = cls
+                cache[key] = thx.lower_ast_exec(f, cls, util, chain, path, 1)
+                mirs[cache[key].name] = (cache[key], f)
+            return cache[key]
+        top = thx.lower_ast_exec(ch["top_fn"], ch["top_cls"], util, chain, "self", job.get("unroll", 1))
+        mirs[top.name] = (top, ch["top_fn"])
+        main = thx.link(ch["top"], top, resolver, renumber=True)
+        sites = list(main.sites)
+        attrs = thx.slice_programs([main])
+        main = thx.merge_faults(thx.compact(main))
+        res["functions"] = sorted({_repo_rel(v[1]) for v in mirs.values()})
+        finit = {}
+        for a in attrs:
+            path, nm = a.split("::")
+            finit[a] = thx.init_consts(pathcls.get(path)).get(nm, thx.OTHER)
+        T = thx.max_news(main)
+        B = thx.longest_path(main)
+        res["bounds"] = {"executor_site": ch["site"], "api": ch["top"], "call_chain": sorted(chain), "loop_unroll": "%d in the API function, 1 in callees" % job.get("unroll", 1),
+                         "fault_sites": len(sites), "executor_objects_T": T, "steps_B": B, "tracked_attributes": sorted(attrs)}
+        empty = thx.Program("<executor>")
+        empty.entry = thx.END
+        bm = thx.Bmc(main, {"<executor>": empty}, finit, {}, T, B, firing=False, nfault=len(sites))
+        s = bm.build(job["timeout_s"])
+        res["states"], res["transitions"], res["paths"] = B + 1, bm.transitions, 1
+        r1, _, dt1 = _check(s, [bm.S[B]["mpc"] == bm.P(thx.END), bm.fk == bm.NOFAULT, z3.Or(*[bm.S[B]["ts"][i] == thx.CANCELLED for i in range(T)])], job["timeout_s"])
+        r2, _, dt2 = _check(s, [bm.S[B]["mpc"] == bm.P(thx.ABORT), bm.S[B]["flt"], z3.Or(*[bm.S[B]["ts"][i] == thx.CANCELLED for i in range(T)])], job["timeout_s"])
+        res["solver_s"] += dt1 + dt2
+        res["twins"] += [{"twin": "the API call returns after an executor was used and shut down", "result": r1},
+                         {"twin": "an injected fault leaves the API call after an executor was used", "result": r2}]
+        if r1 != "sat" or r2 != "sat":
+            res["errors"].append("reachability twin not sat (%s/%s)" % (r1, r2))
+        driver = thx_replay.EXEC_DRIVERS.get(ch["top"])
+        dries = {}
+
+        def dry(fn):
+            if fn not in dries:
+                dries[fn] = thx_replay.run_api(driver, fn, "record", None, "silent")
+            return dries[fn]
+        site_by_id = {x[0]: x for x in sites}
+
+        def site_obj(nid):
+            _, _, _, origin, oid = site_by_id[nid]
+            mir, fn = mirs[origin]
+            return [x for x in mir.sites if x.id == oid][0], fn
+        for klass in ("fault", "nofault"):
+            # sequential system: once the caller has left nothing changes any more, so the last state decides
+            side = [bm.violation(B), bm.S[B]["flt"]] if klass == "fault" else [bm.violation(B), z3.Not(bm.S[B]["flt"]), bm.fk == bm.NOFAULT]
+            label = "every executor constructed during the call is shut down when the call %s" % (
+                "raises (fault index symbolic over %d call sites of the chain)" % len(sites) if klass == "fault" else "returns")
+            key = "%s/%s/%s" % (PROP, job["id"], "executor-left-running-on-exception" if klass == "fault" else "executor-left-running")
+            r, m, dt = _check(s, side, job["timeout_s"])
+            res["solver_s"] += dt
+            q = {"label": label, "result": r, "s": round(dt, 2), "trivial": False, "hash": _qhash("H3", job["id"], klass, [repr(i) for i in main.code])}
+            res["queries"].append(q)
+            if r == "unknown":
+                res["inconclusive"].append({"label": label, "why": "solver unknown/timeout"})
+                continue
+            if r != "sat":
+                res["samples"].append({"case": job["id"], "verdict": r, "query": label, "B": B, "executor_objects": T})
+                continue
+            if driver is None:
+                res["inconclusive"].append({"label": label, "why": "no replay driver for %s" % ch["top"]})
+                continue
+            if klass == "nofault":
+                sched, final = bm.schedule(m)
+                rr = thx_replay.run_api(driver, ch["top_fn"], "record", None, "bar")
+                res["replays"] += 1
+                info = {"model_final": final, "replay": {k: rr[k] for k in ("exception", "other_threads_alive", "threads", "returned")},
+                        "path": [x["op"] for x in sched if x["op"] != "fault"]}
+                if rr["returned"] and rr["other_threads_alive"]:
+                    q["replayed"] = True
+                    res["violations"].append({"label": label, "key": key, "magnitude": float(len(rr["other_threads_alive"])),
+                                              "values": {"kind": "H3", "top": ch["top"], "mode": "nofault"},
+                                              "found_by": "z3 model (path through %s), replayed: real PtTebd run with backend_config={'parallel': 'multithread'}; "
+                                              "threading.enumerate() after the return shows %s" % (" -> ".join(sorted(chain)), rr["other_threads_alive"][:3]),
+                                              "info": info})
+                    res["samples"].append({"case": job["id"], "verdict": "sat", "path": info["path"], "threads_alive": rr["other_threads_alive"]})
+                else:
+                    q["replayed"] = False
+                    res["inconclusive"].append({"label": label, "why": "model does not reproduce on the real code", "info": info})
+                continue
+            done, excluded, last = False, [], None
+            for prefer in (True, False):
+                if done:
+                    break
+                for _try in range(8):
+                    cons = list(side) + [bm.fk != e for e in excluded]
+                    r_, m_, dt_ = _check(s, cons, job["timeout_s"])
+                    res["solver_s"] += dt_
+                    if r_ != "sat":
+                        break
+                    sched, final = bm.schedule(m_)
+                    fid = m_.eval(bm.fk, model_completion=True).as_long()
+                    site, fn = site_obj(fid)
+                    k_ = (site.pos[2], site.pos[3])
+                    occ = 0
+                    for st in sched:
+                        if st["op"] == "fault":
+                            for sid in st["sites"]:
+                                so, f2 = site_obj(sid)
+                                if f2 is fn and so.pos == site.pos:
+                                    occ += 1
+                                if sid == fid:
+                                    break
+                            if fid in st["sites"]:
+                                break
+                    occ = max(1, occ)
+                    d = dry(fn)
+                    if prefer and d["counts"].get(k_, 0) < occ:
+                        excluded.append(fid)
+                        continue
+                    rr = thx_replay.run_api(driver, fn, "direct", (k_, occ), "bar")
+                    res["replays"] += 1
+                    last = {"fault_site": site.as_dict(), "in": fn.__qualname__, "occurrence": occ, "model_final": final,
+                            "replay": {k: rr[k] for k in ("exception", "other_threads_alive", "threads", "fired")}}
+                    if rr["fired"] and rr["exception"] and rr["other_threads_alive"]:
+                        q["replayed"] = True
+                        res["violations"].append({"label": label, "key": key, "magnitude": float(len(rr["other_threads_alive"])),
+                                                  "values": {"kind": "H3", "top": ch["top"], "mode": "direct", "fn": fn.__qualname__, "site_key": list(k_), "occurrence": occ},
+                                                  "found_by": "z3 model (fault index + path), replayed: real multithread PtTebd run, `%s` (line %d of %s) raises; "
+                                                  "threading.enumerate() after the exception shows %s" % (site.label, site.line, fn.__qualname__, rr["other_threads_alive"][:3]),
+                                                  "info": last})
+                        res["samples"].append({"case": job["id"], "verdict": "sat", "fault_site": site.label, "in": fn.__qualname__, "threads_alive": rr["other_threads_alive"]})
+                        done = True
+                        break
+                    excluded.append(fid)
+            if not done:
+                q["replayed"] = False
+                res["inconclusive"].append({"label": label, "why": "no model reproduced on the real code", "info": last})
+    except thx.LoweringError as e:
+        res["errors"].append("lowering: %s" % e)
+    except Exception as e:  # noqa
+        res["errors"].append("%s: %s\n%s" % (type(e).__name__, e, traceback.format_exc()[-1500:]))
+    res["wall_s"] = round(time.time() - t0, 2)
+    return res
+
+
+# ---------------------------------------------------------------------------------------
 # driver
 # ---------------------------------------------------------------------------------------
 def jobs_for(tier):
@@ -680,6 +850,10 @@ def jobs_for(tier):
         jobs.append(dict(kind="H1f", ptype="bar", klass="any", u=1, T=3, Bcap=50, faults="all", firing=True, timeout_s=tmo, tag="conc-T3"))
     for qual, t, n in discover():
         jobs.append(dict(kind="H2", api=qual, target=t, nprog=n, timeout_s=tmo))
+    for ch in discover_exec():
+        jobs.append(dict(kind="H3", id=h3_case_id(ch), timeout_s=tmo, unroll=1))
+        if tier != "quick":
+            jobs.append(dict(kind="H3", id=h3_case_id(ch) + "/unroll2", timeout_s=tmo, unroll=2))
     for name, cls, expect in SELFTESTS:
         jobs.append(dict(kind="S", ptype="bar", klass="any", cls=cls, expect=expect, u=1, T=3, Bcap=48, timeout_s=tmo, selftest=name))
     for name, cls, expect in SELFTESTS_F:
@@ -692,6 +866,8 @@ def jobs_for(tier):
             j["id"] = "H1f/%s/u%d/%s" % (j["ptype"], j["u"], j["tag"])
         elif j["kind"] == "S":
             j["id"] = "selftest/%s" % j["selftest"]
+        elif j["kind"] == "H3":
+            pass
         else:
             j["id"] = h2_case_id(j["api"], j["target"], j["nprog"])
     return jobs
@@ -701,7 +877,7 @@ def _run_job(job):
     warnings.simplefilter("ignore")
     if os.environ.get("VF_VERBOSE"):
         print("[start] %s" % job["id"], file=sys.stderr, flush=True)
-    r = run_h1(job) if job["kind"] in ("H1", "H1f", "S") else run_h2(job)
+    r = run_h1(job) if job["kind"] in ("H1", "H1f", "S") else (run_h3(job) if job["kind"] == "H3" else run_h2(job))
     if os.environ.get("VF_VERBOSE"):
         print("[done ] %s %.1fs %s viol=%d err=%d inc=%d" % (job["id"], r.get("wall_s", 0), [q["result"] for q in r["queries"]],
               len(r["violations"]), len(r["errors"]), len(r["inconclusive"])), file=sys.stderr, flush=True)
@@ -781,6 +957,16 @@ class ReplayCase(Case):
                                             fault_codes=codes, guarded=bool(v.get("guarded")))
             print("replay: leaked timers %s threads %s desync %s" % (rr["leaked"], rr["threads"], rr["desync"]))
             return [Ob.holds("no timer survives the schedule", not rr["leaked"])]
+        if v.get("kind") == "H3":
+            ch = [c for c in discover_exec() if c["top"] == v["top"]][0]
+            driver = thx_replay.EXEC_DRIVERS[v["top"]]
+            if v["mode"] == "nofault":
+                rr = thx_replay.run_api(driver, ch["top_fn"], "record", None, "bar")
+            else:
+                fn = [f for f, c, q in ch["chain"].values() if f.__qualname__ == v["fn"]][0]
+                rr = thx_replay.run_api(driver, fn, "direct", (tuple(v["site_key"]), int(v["occurrence"])), "bar")
+            print("replay: exception %s threads alive %s" % (rr["exception"], rr["other_threads_alive"]))
+            return [Ob.holds("no executor thread alive after the call", not rr["other_threads_alive"])]
         fn = dict(thx.discover_apis(oqupy))[v["api"]]
         driver = thx_replay.DRIVERS[v["api"]]
         if v.get("mode") == "nofault":
